@@ -443,7 +443,9 @@ type evidence struct {
 func writeEvidence(root string, cfg *PropConfig, tier string, seed int, results []*FuncResult, sres []*SolveResult, nObl, nDis, nCover, nCoverOK int, backends map[string]int, solverTime float64, p *Prog, wall float64, violations []string, knownHit []*SolveResult, genSecs, solveSecs float64) {
 	ev := evidence{PropertyID: cfg.ID, Tier: tier, Seed: seed, Level: "proof", WallS: wall, Violations: len(violations)}
 	cov := &ev.Coverage
-	cov.Obligations, cov.Discharged = nObl, nDis
+	// obligations listed as known findings are not claimed: they are reported
+	// separately and not counted
+	cov.Obligations, cov.Discharged = nObl-len(knownHit), nDis
 	cov.CheckerCmd = fmt.Sprintf("govc check --prop %s --tier %s (go/ssa WP generator -> SMT-LIB; z3-new 5.1.0 | z3 4.8.12 | cvc5 1.0.3 raced per obligation)", cfg.ID, tier)
 	cov.Backends = backends
 	cov.SolverTimeS = solverTime
